@@ -335,7 +335,9 @@ def replay(ctx, data):
                 for k, v in puts:
                     f.put(k, v.b)
                 f.close()
-            img = dict(crash_images(base_img, log, sum(len(e[2]) for e in log if e[0] == "w") <= 400))[data["label"]]
+            img = dict(crash_images(base_img, log, sum(len(e[2]) for e in log if e[0] == "w") <= 400)).get(data["label"])
+            if img is None:
+                return []
             extra = judge_image(path + ".probe", img, committed, puts)
             if data.get("kind") == "image2":
                 open(path, "wb").write(img)
@@ -344,7 +346,9 @@ def replay(ctx, data):
                     f = UKVFile(path, "a"); f.put(rput[0], rput[1].b); f.close()
                 bof = len(base_img) - sum(5 + len(k) + len(v.b) for k, v in committed)
                 done = [(k, v) for k, v in puts if any(kk == k for kk, _, _, _ in U.parse_file(img, bof)[0])]
-                img = dict(crash_images(img, rlog, True))[data["label2"]]
+                img = dict(crash_images(img, rlog, True)).get(data["label2"])
+                if img is None:      # the recovery session no longer has such an effect: the recorded death point does not exist
+                    return []
                 extra = [(s_ + ":second-crash", t) for s_, t in judge_image(path + ".probe", img, committed + done, [rput])]
                 committed, puts = committed + done, [rput]
         else:
